@@ -408,7 +408,7 @@ def shapes(nscopes, klevel, slevel):
         yield ('module', forest)
 
 
-def label(shape, levels, names=(X,), child_first=False):
+def label(shape, levels, names=(X,), child_first=False, decoy=False):
     """all assignments of bundles to the scopes of a shape.  levels: function depth-first index -> bundle level"""
     nodes = []
 
@@ -424,10 +424,21 @@ def label(shape, levels, names=(X,), child_first=False):
     for combo in itertools.product(*choices):
         it = iter(combo)
 
+        last = nodes[-1]
+
         def build(node):
             bid = next(it)
             children = [(slot, build(ch)) for slot, ch in node[1]]
-            return Scope(node[0], ((names[0], bid),), children, child_first and bool(children))
+            bundles = ((names[0], bid),)
+            if decoy:
+                # names from the renamer's own output alphabet used by the program itself: `A` is a module global, `B` is never bound by the
+                # module (injected through the execution namespace); the innermost scope reads both, so no binding on the way may be named A or B
+                if node is shape:
+                    bundles = (('A', 'store_only'),) + bundles
+                if node is last:
+                    load = 'load' if node[0] in ('module', 'def', 'adef', 'class', 'lambda') else 'load_elt'
+                    bundles = bundles + (('A', load), ('B', load))
+            return Scope(node[0], bundles, children, child_first and bool(children))
         yield build(shape)
 
 
